@@ -7,6 +7,7 @@ import json
 from vlib import *
 from checks import c02, c03, c04, c06, c07, c08, c09, c13
 
+THOROUGH_ROUNDS = 3      # repetitions of the conformance part in the thorough tier (fresh random draws each)
 HOOK_ONLY = ("fe.", "vec.", "const.", "ed.table", "ris.table")
 
 
